@@ -89,6 +89,14 @@ func seqCompare(xctx build.XContext, ovDir, ip, odir string, origFiles []string)
 		return res
 	}
 	a := printFiles(fsetA, filesA)
+	// property-level view of the REAL result: type-check and declared names (the only tie in which gopherjs parses itself)
+	tcA, infoA := typecheck(fsetA, filesA)
+	res["tc_after"] = tcA
+	var sum [][]string
+	for _, f := range filesA {
+		sum = append(sum, summary(fsetA, f, infoA, infoA))
+	}
+	res["summary"] = sum
 	fsetB := token.NewFileSet()
 	var ovs, origs []*ast.File
 	for _, f := range filesA {
